@@ -1,18 +1,50 @@
 P = {
-    "level_text": "Theorems (kernel-checked, all shapes / stored lists / updates / histories, no size bound): on every input the SPEC decides (stored data and update with complete, pairwise distinct identifiers, or one identifier-less item, or a selector matching at most one item; delete filter with selector and/or elements naming no identifier; all seven filter shapes) the update engine model succeeds and its result, read as a map identifier -> item, equals Spec.KV.apply (delete first, then overlay by identifier / over all / over the selected item); the result has one item per identifier; with numeric identifiers ordered data stays ordered and the merge path orders; the same along any history through the per-type wrapper (stored data = fold of the rules); list-level idempotence on the merge path and for identifier-less updates; the four clauses (full replaces, partial keeps unmentioned items and fields, selector confines, delete removes / clears) on the engine functions with weaker hypotheses. Decided over tables regenerated from the tree on every run: every one of the list types implementing model.Updater has a shape the theorems apply to, and every UpdateList method outside the generated list wiringFailing reads, passes and assigns one list field, persists only under success && persist and returns the data; wiringFailing is proved exact. Refuted by kernel-checked witnesses: order after a full update (stored as received); idempotence of the rules themselves for delete+partial updates whose delete selector tests a field the partial part changes. The model is tied to the code by a differential run against the real per-type UpdateList of every list type with struct items (86), spine.FunctionData, FeatureLocal.UpdateData and reply/notify datagrams, and the SPEC is monitored on the implementation's own results.",
-    "level_note": "Trusted: Lean kernel; hand-written model Spine/Update.lean + Spine/Store.lean (validated by the correspondence run incl. panics and in-place effects); the translator's reflection / go/ast extraction (G3, G4) and the harness codec. The Go SPEC monitor is an independent twin of Spine/SpecKV.lean and is compared with it on every local case. Not proved, monitored only: list-level idempotence of selector updates and delete filters (demanded by the monitor exactly where the SPEC itself gives the same data twice); inputs the SPEC does not decide (duplicate / missing identifiers in an update, selectors matching several items, elements naming identifiers, the identifier-less NodeManagementDestinationListData, scalar-item SpecificationVersionListData - not driven). String/struct identifiers are modelled as injectively hashed (no '|' in key strings). Remote writes belong to C04, panics to C05, sharing of backing arrays to C11.",
-    "props_modules": ["Spine.Props.C02"],
-    "generated_props": ["Spine.Props.C02"],
-    "lemma_modules": ["Spine.Update", "Spine.Store", "Spine.SpecKV", "Spine.C02Tables", "Spine.UpdateThm", "Spine.SortThm", "Spine.C02Thm", "Spine.SelectThm", "Spine.C02Refine", "Spine.UpdateF", "Spine.StoreF"],
-    "drivers": ["drv_upd"],
-    "tests": [{"name": "TestUpdate"}],
-    "generated": ["shapes", "wiring"],
-    "generated_files": ["Shapes.lean", "Wiring.lean"],
+    "level_text": "Theorems (kernel-checked, all shapes / stored lists / updates / histories, no size bound). REFINEMENT: on every input the SPEC decides (stored data and update with complete, pairwise distinct identifiers, or one identifier-less item, or a selector matching at most one item; delete filter with selector and/or elements naming no identifier; all seven filter shapes) the update engine succeeds and its result, read as a map identifier -> item, equals Spec.KV.apply (delete first, then overlay by identifier / over all / over the selected item); one item per identifier; the same along any history through the per-type wrapper (stored data = fold of the rules). ORDER: with numeric identifiers of 1, 2 or 3 key fields ordered data stays ordered and the merge path orders, where ordered = the identifier tuples increase strictly in lexicographic order; SortData's comparator is proved a strict weak order, total on identifiers. IDEMPOTENCE: idempotentRegion is the exact decidable side condition (second application decided, the rules give the same data at every identifier involved); inside it updateList (updateList st u) u = updateList st u as LISTS for numeric identifiers and all seven filter shapes (c02_idempotent), as lists for selector updates with any identifiers, as maps for every shape; outside it a kernel-checked witness shows the rules themselves are not idempotent (delete selector testing a field the partial part changes). SEVERAL MATCHES: a partial update with a selector changes the first matching item only, everything else is as before; a delete selector removes every matching item and keeps every other. FAMILY: every member of the engine family (defect flags of C04/C05 sites: the pinned commit = all on, the repaired HEAD = cfg 0 0 0 0 0 / selfacts 1, any mixture) computes exactly updateList on every input the SPEC decides (c02_every_member_on_decided), so all of the above are theorems about the member the check runs against HEAD; the repaired SelectorMatch (nil check + reflect.DeepEqual) is proved total and to decide equality for every selector field class of every list type, struct-typed fields included. TABLES regenerated from the tree on every run: every list type implementing model.Updater has a shape the theorems apply to; every UpdateList method outside the generated list wiringFailing (empty on HEAD) reads, passes and assigns one list field, persists only under success && persist and returns the data; wiringFailing is proved exact. Refuted by kernel-checked witness: order after a full update (stored as received; known finding, open on HEAD). The model is tied to the code by a differential run against the real per-type UpdateList of every list type with struct items (86), spine.FunctionData, FeatureLocal.UpdateData and reply/notify datagrams, with the family member and the selector encoding probed on the tree under test; the SPEC is monitored on the implementation's own results.",
+    "level_note": "Trusted: Lean kernel; hand-written model Spine/Update.lean + Spine/Store.lean (as written = pinned commit) and the family Spine/UpdateF.lean (validated by the correspondence run incl. panics and in-place effects, on the pinned, the intermediate and the repaired trees); the translator's reflection / go/ast extraction (G3, G4) and the harness codec. The Go SPEC monitor is an independent twin of Spine/SpecKV.lean and is compared with it on every local case; beyond the twin it judges selectors matching several items by the first-match reading proved in c02_selector_first_match. Not proved, monitored only: inputs the SPEC does not decide other than several matches (duplicate / missing identifiers in an update, elements naming identifiers, the identifier-less NodeManagementDestinationListData, scalar-item SpecificationVersionListData - not driven); list-level idempotence on the sorting paths for the six list types with non-numeric identifier parts (map-level is proved). String/struct identifiers are modelled as injectively hashed (no '|' in key strings). Remote writes belong to C04, panics to C05, sharing of backing arrays to C11.",
+    "props_modules": [
+        "Spine.Props.C02"
+    ],
+    "generated_props": [
+        "Spine.Props.C02"
+    ],
+    "lemma_modules": [
+        "Spine.Update",
+        "Spine.Store",
+        "Spine.SpecKV",
+        "Spine.C02Tables",
+        "Spine.UpdateThm",
+        "Spine.SortThm",
+        "Spine.C02Thm",
+        "Spine.SelectThm",
+        "Spine.C02Refine",
+        "Spine.UpdateF",
+        "Spine.StoreF",
+        "Spine.C02Idem"
+    ],
+    "drivers": [
+        "drv_upd"
+    ],
+    "tests": [
+        {
+            "name": "TestUpdate"
+        }
+    ],
+    "generated": [
+        "shapes",
+        "wiring"
+    ],
+    "generated_files": [
+        "Shapes.lean",
+        "Wiring.lean"
+    ],
     "trusted_base": [
         "model Spine.updateList / updateStore / updateData written by hand from model/update.go, model/collection_operations.go, spine/function_data.go; items abstracted to List (Option Nat) with one Shape per list type (G3)",
         "translator generators shapes (reflection over model.CmdType / model.FilterType with the repo's own EEBusTags) and wiring (go/ast over model/*.go); the harness uses the same extraction (go/h/updshape.go) and the correspondence run exercises every row",
         "selector fields are classified by type facts of the data model (G3: ignored / scalar / othertype / nonptr / struct / structnc) and encoded for the model by Spine.Tables.selMapFor from two facts PROBED on the tree under test (selected item field nil: panic or no match; struct values compared deeply or with !=); the harness checks before generating that the real SelectorMatch behaves for every selector field of every list type as its class says (same value / other value / nil), and that its own copy of the encoding equals the driver's",
-        "string and struct identifiers modelled as injectively hashed values (the code's 'a|b' concatenation is not injective if a key string contains '|' or is empty; no enum key of the data model does)",
+        "string and struct identifiers modelled as injectively hashed values (the code's 'a|b' concatenation is not injective if a key string contains '|' or is empty; no enum key of the data model does)"
     ],
-    "assumptions": ["key strings contain no '|' and are non-empty (A-hash for identifiers)", "Go's sort.Slice is insertion sort for <= 12 elements; longer lists are compared as multisets"],
+    "assumptions": [
+        "key strings contain no '|' and are non-empty (A-hash for identifiers)",
+        "Go's sort.Slice is insertion sort for <= 12 elements; longer lists are compared as multisets"
+    ]
 }
